@@ -20,6 +20,7 @@ type c16Case struct {
 }
 
 func TestC16(t *testing.T) {
+	allowLongTexts = true
 	r := core.Start(t, "C16")
 	defer r.Finish()
 	r.Rule = "admission trees: optional top-level authority; 1-3 admissions each with optional authority (dns, mail, url, ip) and optional namingAuthority (every subset of oid/url/text); 1-3 professionInfos each with optional namingAuthority, 1-3 UTF-8 professionItems, 0-3 professionOids, optional PrintableString registrationNumber, optional addProfessionInfo (!binary up to 900 bytes or !null); 5% of names are 120-300 characters (long-form lengths inside explicit tags). Oracle: extnValue must equal byte for byte the AdmissionSyntax encoding built by the harness (explicit [0]/[1] tags, IA5String URL, UTF8String text/items, PrintableString registration number, OCTET STRING) and pass the strict DER reader. Non-trivial = tree with an authority of kind mail/url/ip or >= 2 optional members present; distinct by content."
